@@ -149,6 +149,68 @@ pub fn exec_agree(c: &AgreeCase, st: &mut Stats) -> Vec<Viol> {
             ));
         }
     }
+    // the validating twins of the single-document entry points (garde: `_valid`, validator: `_validate`):
+    // string, slice and reader agree, also when the document fails validation and something follows it
+    if c.target == Target::Cfg
+        && let Some(text) = c.doc.as_str()
+    {
+        for which in 0..2u8 {
+            let run_v = |entry: u8, ch: Option<&Chunking>| -> Outcome {
+                let mut renders = Vec::new();
+                let opts = c.opts.to_options();
+                let rd = || {
+                    SimReader::new(
+                        text.as_bytes(),
+                        ReaderScript {
+                            chunking: ch.cloned(),
+                            ..Default::default()
+                        },
+                    )
+                };
+                match (which, entry) {
+                    (0, 0) => lab::canon(guard(|| serde_saphyr::from_str_with_options_valid::<VCfg>(text, opts)), &mut renders),
+                    (0, 1) => lab::canon(guard(|| serde_saphyr::from_slice_with_options_valid::<VCfg>(text.as_bytes(), opts)), &mut renders),
+                    (0, _) => {
+                        let r = rd();
+                        lab::canon(guard(|| serde_saphyr::from_reader_with_options_valid::<_, VCfg>(r, opts)), &mut renders)
+                    }
+                    (_, 0) => lab::canon(guard(|| serde_saphyr::from_str_with_options_validate::<VCfg>(text, opts)), &mut renders),
+                    (_, 1) => lab::canon(guard(|| serde_saphyr::from_slice_with_options_validate::<VCfg>(text.as_bytes(), opts)), &mut renders),
+                    (_, _) => {
+                        let r = rd();
+                        lab::canon(guard(|| serde_saphyr::from_reader_with_options_validate::<_, VCfg>(r, opts)), &mut renders)
+                    }
+                }
+            };
+            let a = run_v(0, None);
+            st.evals += 1;
+            if matches!(a, Outcome::Panic(_) | Outcome::Liveness(_)) {
+                continue;
+            }
+            let family = if which == 0 { "garde" } else { "validator" };
+            let b = run_v(1, None);
+            st.evals += 1;
+            if a.agree_key() != b.agree_key() {
+                out.push(mk(
+                    "validating-entry-disagrees",
+                    format!("{family}: the string entry point gives {}, the slice one {}", a.short(), b.short()),
+                    None,
+                ));
+            }
+            for ch in [Chunking::Whole, Chunking::Fixed(1), Chunking::Fixed(5)] {
+                let r = run_v(2, Some(&ch));
+                st.evals += 1;
+                st.bump("validating.reader_compared");
+                if a.agree_key() != r.agree_key() {
+                    out.push(mk(
+                        "validating-entry-disagrees",
+                        format!("{family}: the string entry point gives {}, the reader one ({ch:?}) {}", a.short(), r.short()),
+                        Some(ch.clone()),
+                    ));
+                }
+            }
+        }
+    }
     // closure helpers whose closure does not deserialize the target: skipping the document
     // (IgnoredAny) and not touching the deserializer at all must behave alike for string and reader input
     if let Some(text) = c.doc.as_str() {
@@ -744,12 +806,24 @@ fn gen_borrow(rng: &mut Rng) -> BorrowCase {
     }
     let mut worst = 0u8;
     let (a, ca) = if rng.chance(1, 8) {
-        ("|\n  block text\n".to_string(), 2)
+        // a block scalar of one line is in the input verbatim (with its line break when it is kept): lendable.
+        // Several lines are not (the indentation between them is not part of the value), nor is folded text.
+        let (t, class) = *rng.pick(&[
+            ("|\n  block text\n", 0u8),
+            ("|-\n  block text\n", 0),
+            (">-\n  block text\n", 0),
+            (">\n  block text é\n", 0),
+            ("|+\n  kept\n", 0),
+            ("|-  # comment\n    deeper text\n", 0),
+            ("|\n  two\n  lines\n", 1),
+            ("|-\n  two\n\n  paragraphs\n", 1),
+        ]);
+        (t.to_string(), class)
     } else if rng.chance(1, 8) {
         // block scalars whose content is empty (after chomping): still strings, never null
         ((*rng.pick(&["|-\n", ">-\n", "|-\n\n", "|\n", ">\n", "|+\n", "|-\n  \n", ">-\n\n\n"])).to_string(), 2)
     } else if rng.chance(1, 10) {
-        (">\n  folded text\n  more\n".to_string(), 2)
+        (">\n  folded text\n  more\n".to_string(), 1)
     } else {
         scalar(rng, false)
     };
@@ -835,6 +909,28 @@ pub fn gen_case(plan: &Plan, tier: Tier, seed: u64, idx: u64) -> Case {
                 scheds,
             });
         }
+    }
+    if rng.chance(1, 14) {
+        // a document for the validated struct - valid, or failing validation, or of the wrong type - and
+        // then nothing, a second document, or broken text behind a `---`
+        let first = *rng.pick(&[
+            "name: a\nn: 1\n",
+            "name: ''\nn: 1\n",
+            "name: ok\nn: 5000\n",
+            "name: ''\nn: 5000\nzzz: toolong\n",
+            "name: ok\nn: x\n",
+            "{name: '', n: 2}\n",
+        ]);
+        let rest = *rng.pick(&["", "---\nname: b\nn: 2\n", "--- [\n", "--- 'x\n", "...\n", "...\n---\nname: c\nn: 3\n", "---\n", "# c\n"]);
+        let bom = if rng.chance(1, 5) { "\u{feff}" } else { "" };
+        let text = format!("{bom}{first}{rest}");
+        let scheds = schedules_for(text.as_bytes(), &mut rng, 3);
+        return Case::C09(AgreeCase {
+            doc: Doc::from_str(&text),
+            target: Target::Cfg,
+            opts: if rng.chance(2, 3) { OptVec::default() } else { OptVec::random(&mut rng) },
+            scheds,
+        });
     }
     let target = *rng.pick(&ALL_TARGETS);
     let text = match rng.below(10) {
